@@ -377,9 +377,9 @@ Definition C01_ordered_general_statement : Prop :=
    Proof: Proofs/ConvergeRewrite.v (make_pre groups one rule with distinct keys into one bucket per entry; `rewrite` yields
    nothing for a REMOVED key and the row for a MOVED / ADDED one; the stable sort is the identity on equal keys; each direct
    command finds its slot free and appends; induction on the diff with the nested level lemma).
-   PARTIAL with respect to [C01_rewrite_block_statement] below: the diff half (built (rewrite_diff bo bn) = bn, the diff is
-   all-AFFECTED only if bo = bn) and the header step (enter = reset) are not proved; they are evaluated by vm_compute on
-   examples only ([C01_rewrite_block_examples]) and by the check on real outputs. *)
+   This is the patch + device half of [C01_rewrite_block_statement] below; the diff half (built (rewrite_diff bo bn) = bn, the
+   diff is all-AFFECTED only if bo = bn) and the header step (enter = reset) are proved in Proofs/ConvergeRewriteBlock.v:
+   the whole statement is theorem [C01_rewrite_block] at the end of this file (the name ..._partial is kept). *)
 Theorem C01_rewrite_patch_builds_partial :
   forall v rs ordering D,
     Forall (fun d => dok pm (v_is_exit v) d rs) D -> lvl D ->
@@ -439,7 +439,8 @@ Proof.
       constructor; [intros []|]. constructor.
 Qed.
 
-(* C01_rewrite_block_statement (stated, not proved as a whole).  A block header present in old and new whose bodies are
+(* C01_rewrite_block_statement (PROVED at the end of this file: C01_rewrite_block, C01_rewrite_flat; the list of what
+   was missing is kept for the record).  A block header present in old and new whose bodies are
    governed by %rewrite rules at every depth, in the computable domain [wf_rw_block] of Spec/P_C01rw.v (the key determines
    the row on every level of the universe of the two bodies; the ordering rulebook does not tear a level apart): the patch
    is computed and executing the model's command paths on old yields new - EQUAL AS A FOREST.  [wf_rw_flat]: leaf bodies.
@@ -612,7 +613,10 @@ Qed.
 Print Assumptions C01_shipped_converges.
 
 (* ... and for huawei (CE, NE, "Huawei DC") under the one hypothesis that the literal-word test is sound for the
-   pattern model.  PARTIAL: that hypothesis is not proved.  Missing: the word-level reading of
+   pattern model.  RESOLVED at the end of this file: the hypothesis AS WRITTEN HERE is false for negation words that are
+   not words (C01_lit_quiet_sound_statement_refuted), it is proved for every negation word without blank, `*`, `~`, braces
+   (C01_lit_quiet_sound), and the conclusion below holds for ALL shipped pairs with no hypothesis (C01_shipped_converges_all).
+   What was missing: the word-level reading of
    format_template (make_reverse pp prefix) key for the patterns of Model/PatternY.v (C07Y_reverse_statement is
    open; C07X_reverse covers the PatternX patterns) composed with C07Y_match_iff ("the i-th word of a matched row is
    the i-th literal of the pattern").  The check tests the hypothesis on the real regexps (evidence:
@@ -725,3 +729,148 @@ Example C01_shipped_witness_detects_late_removal :
   | None => True
   end.
 Proof. vm_compute. reflexivity. Qed.
+
+(* ====================================================================================================
+   %rewrite blocks as a whole, and the soundness of the literal-word test (added last; everything above is unchanged).
+   ==================================================================================================== *)
+From Annet Require Import Proofs.ConvergeRewriteBlock Proofs.ShippedLitQuiet.
+
+(* C01_rewrite_block.  [C01_rewrite_block_statement] is a theorem: a block header present in old and new whose bodies are
+   governed by %rewrite rules at EVERY depth, in the computable domain [wf_rw_block] (Spec/P_C01rw.v: the key determines the row
+   on every level of the universe of the two bodies; the ordering rulebook gives the direct commands of one level one sort key;
+   header rule not %rewrite, no %force_commit; block formatter family): the model of _diff_and_patch computes a patch - no
+   AssertionError - and executing its command paths, path by path, on old yields new: EQUALITY OF FORESTS, rows in sequence at
+   every depth; bodies of any depth and width.  In particular when the two bodies are equal the patch is empty, and the diff is
+   cleared ONLY then.  Proof (Proofs/ConvergeRewriteBlock.v): the domain as a recursive proposition; scan_new of rewrite_diff
+   yields one entry per row of new in new's order (REMOVED rows interleaved contribute nothing), so [built] of the body diff is
+   new's body and its entries satisfy [dok] / [lvl] - which feeds C01_rewrite_patch_builds_partial -; an all-AFFECTED body diff
+   forces equal rows at equal indices and no REMOVED row, recursively, i.e. equal bodies; the header entry is AFFECTED, every
+   logic function yields its direct command, the header command finds its own slot with the same text and ENTERS it, Device.enter
+   drops every child (all governed by %rewrite rules), the body patch rebuilds new's body; prows_ok of the patch gives
+   cmd_paths = run_pt (C01_cmd_paths_follow_blocks). *)
+Theorem C01_rewrite_block :
+  forall v rs ordering old new, wf_rw_block v rs ordering old new = true ->
+  exists pt, snd (diff_and_patch v rs ordering old new) = POk pt /\
+             p_exec v rs (cmd_paths (v_family v) pt) old = new.
+Proof. exact rewrite_block_model. Qed.
+Print Assumptions C01_rewrite_block.
+
+(* the flat case (leaf bodies) *)
+Theorem C01_rewrite_flat :
+  forall v rs ordering old new, wf_rw_flat v rs ordering old new = true ->
+  exists pt, snd (diff_and_patch v rs ordering old new) = POk pt /\
+             p_exec v rs (cmd_paths (v_family v) pt) old = new.
+Proof. exact rewrite_flat_model. Qed.
+Print Assumptions C01_rewrite_flat.
+
+(* the two statements kept above as Definitions hold *)
+Theorem C01_rewrite_statements_hold : C01_rewrite_block_statement /\ C01_rewrite_flat_statement.
+Proof. split; [exact rewrite_block_model | exact rewrite_flat_model]. Qed.
+Print Assumptions C01_rewrite_statements_hold.
+
+(* ... hence, as dicts, the second run of the pipeline on the state reached sees equal configurations *)
+Theorem C01_rewrite_block_sim :
+  forall v rs ordering old new, wf_rw_block v rs ordering old new = true ->
+  exists pt, snd (diff_and_patch v rs ordering old new) = POk pt /\
+             sim (p_exec v rs (cmd_paths (v_family v) pt) old) new.
+Proof.
+  intros v rs ordering old new H. destruct (rewrite_block_model v rs ordering old new H) as (pt & Hp & He).
+  exists pt. split; [exact Hp|]. rewrite He. apply sim_refl.
+Qed.
+Print Assumptions C01_rewrite_block_sim.
+
+(* the two halves the block theorem is made of, for any matcher: [built] of the body diff is new's body (with [dok] / [lvl]),
+   and the body diff is all-AFFECTED only if the bodies are equal *)
+Theorem C01_rewrite_diff_builds :
+  forall rmatch is_exit ln lo rs pop, rd rmatch is_exit rs lo ln -> pop_live pop ->
+    let D := aff_to_moved (bd rmatch rs lo ln pop) in
+    Forall (fun d => dok rmatch is_exit d rs) D /\ lvl D /\ flat_map built D = ln.
+Proof. exact body_diff. Qed.
+Print Assumptions C01_rewrite_diff_builds.
+Theorem C01_rewrite_diff_cleared_only_if_equal :
+  forall rmatch is_exit ln lo rs, rd rmatch is_exit rs lo ln -> all_affected (bd rmatch rs lo ln Affected) = true -> lo = ln.
+Proof. exact body_cleared. Qed.
+Print Assumptions C01_rewrite_diff_cleared_only_if_equal.
+
+(* non-vacuity of the guards: the flat and the nested instance of C01_rewrite_block_examples, and an unchanged nested block;
+   the conclusion of the theorem on the nested instance is re-evaluated (not the unbounded claim) *)
+Example C01_rewrite_block_nonvacuous :
+  wf_rw_flat c01_ex_v c01_rw_rules [] c01_rwf_old c01_rwf_new = true /\
+  wf_rw_block c01_ex_v c01_rw_rules [] c01_rw_old c01_rw_new = true /\
+  wf_rw_block c01_ex_v c01_rw_rules [] c01_rw_new c01_rw_new = true /\
+  rw_dom pm (v_is_exit c01_ex_v) (rw_crs c01_rw_rules "xpl foo")
+         (merge (kids (T [("a", T [("x", T []); ("y", T [])]); ("b", T []); ("c", T [])]))
+                (kids (T [("c", T []); ("a", T [("y", T []); ("z", T []); ("x", T [])]); ("d", T [])]))) = true.
+Proof. vm_compute. repeat split; reflexivity. Qed.
+
+(* C01_lit_quiet_sound.  The literal-word test [lit_quiet] (Spec/P_Shipped.v) is sound for the pattern model for every
+   negation word that is a word ([neg_word]: not empty, no white space, none of * ~ { }): if the test accepts the patching
+   pattern pp against the patterns OR then NO removal command of pp - for any key - is matched by a pattern of OR.
+   Proof (Proofs/ShippedLitQuiet.v): (A) the removal text format_template (make_reverse pp prefix) key of a pattern whose
+   first word is the literal c <> prefix reads `prefix c ...` (or is empty when str.format raises), for every pattern of
+   Model/PatternY.v - glued placeholders and special last words included - and every key ([C01_reverse_words]);
+   (B) a row matched by a pattern whose first words are literals starts with those words ([C01_match_lit_words]). *)
+Theorem C01_lit_quiet_sound :
+  forall prefix, neg_word prefix = true ->
+  forall OR pp, lit_quiet prefix OR pp = true ->
+  forall po key, In po OR -> ym po (format_template (make_reverse pp prefix) key) = None.
+Proof. exact lit_quiet_sound. Qed.
+Print Assumptions C01_lit_quiet_sound.
+
+Theorem C01_reverse_words :
+  forall prefix pp c key, neg_word prefix = true -> lit_vec 1 pp = [LvLit c] -> c <> prefix ->
+  words (format_template (make_reverse pp prefix) key) = [] \/
+  exists rest, words (format_template (make_reverse pp prefix) key) = prefix :: c :: rest.
+Proof. exact lit_vec_reverse_words. Qed.
+Print Assumptions C01_reverse_words.
+
+Theorem C01_match_lit_words :
+  forall po row k a x, lit_vec 2 po = [LvLit a; x] -> ym po row = Some k ->
+  exists rest, words row = a :: rest /\ (forall b, x = LvLit b -> exists rest', rest = b :: rest').
+Proof. exact ym_lit_words. Qed.
+Print Assumptions C01_match_lit_words.
+
+(* C01_lit_quiet_sound_statement_refuted.  WITHOUT the hypothesis on the negation word the statement
+   [C01_lit_quiet_sound_statement] is FALSE: the test never looks at the negation word.  Witness replayed on the real code
+   (annet.rulebook.patching._make_reverse + rbparser.syntax.compile_row_regexp): negation word "c d" (a blank), patching
+   pattern `c d c y`, ordering pattern `c y` - _make_reverse strips the leading "c d " and the removal command `c y` is
+   matched by the ordering pattern; likewise negation word "*" (it becomes a placeholder filled from the key).  No vendor of
+   the registry has such a negation word ([C01_shipped_neg_words]); this is a defect of the statement, not of annet. *)
+Theorem C01_lit_quiet_sound_statement_refuted : ~ C01_lit_quiet_sound_statement.
+Proof. exact lit_quiet_statement_false. Qed.
+Print Assumptions C01_lit_quiet_sound_statement_refuted.
+Example C01_lit_quiet_witnesses :
+  lit_quiet_refuted "c d" ["c y"] "c d c y" "c y" [] /\ lit_quiet_refuted "*" ["x c"] "c" "x c" ["x"].
+Proof. exact (conj lit_quiet_unsound_blank lit_quiet_unsound_star). Qed.
+
+(* every shipped negation word is a word (by computation over Gen/Src_rules.v, re-checked on every run) *)
+Theorem C01_shipped_neg_words : forallb (fun h => neg_word (sh_reverse h)) Src_shipped = true.
+Proof. exact shipped_neg_words. Qed.
+Print Assumptions C01_shipped_neg_words.
+
+(* C01_shipped_converges_all.  The conclusion of C01_shipped_converges_partial with NO hypothesis left, for EVERY shipped
+   (ordering, patching) pair - huawei's, with their undo_redo rules and 51 %order_reverse rules, included: every block
+   formatter family, ALL old / new of the Tier-A domain: the patch computed with the shipped ordering rulebook is computed
+   without error and, executed on old, reaches expected(R, old, new); the state reached is again in the domain.
+   (The limit recorded in C01_shipped_catchall_outside_domain still applies: on rulebooks ending in a catch-all the Tier-A
+   domain holds no configuration with a known row.) *)
+Theorem C01_shipped_converges_all :
+  forall h, In h Src_shipped ->
+  forall R ord fam, shipped_rset h = Some R -> shipped_ordering h = Some ord -> block_family fam = true ->
+  let v := Vendor (sh_reverse h) (sh_exit h) fam in
+  forall old new, wf_A_y v R old new = true ->
+  exists pt, y_patch v R ord old new = POk pt /\
+    let dev := y_exec v R (cmd_paths fam pt) old in
+    sim dev (y_expected R old new) /\ ConvergeMain.good ym R (merge old new) dev.
+Proof. exact shipped_converges_lit. Qed.
+Print Assumptions C01_shipped_converges_all.
+
+(* non-vacuity: the guard of C01_lit_quiet_sound on huawei's negation word with a pattern pair the test accepts and one it
+   rejects; a huawei pair is in the table and has both undo_redo and %order_reverse rules (C01_shipped_order_ok, last clause) *)
+Example C01_lit_quiet_nonvacuous :
+  neg_word "undo" = true /\
+  lit_quiet "undo" ["undo mtu *"; "undo description"] "stp edged-port *" = true /\
+  lit_quiet "undo" ["undo mtu *"] "mtu *" = false /\
+  existsb is_huawei Src_shipped = true.
+Proof. vm_compute. repeat split; reflexivity. Qed.
+
